@@ -88,6 +88,32 @@ Definition verdict_conds (p : proj) : list (option cond) :=
 
 Definition meets (cf : cfg) (g : Z) (v : Z) : bool := if c_minimize cf then v <=? g else g <=? v.
 
+(* justified: a verdict that appears is backed by the trials in the store, in the way its reason says; which verdict it is is
+   read off the Succeeded condition being TRUE (a leftover Succeeded=False condition is no verdict) *)
+Definition justified_step (cf : cfg) (prev p : proj) : bool :=
+  if negb (exp_completed prev) && exp_completed p then
+    match pj_exp p with
+    | Some e =>
+        let done := Z.of_nat (length (filter pt_completed (pj_trials p))) in
+        let bad := Z.of_nat (length (filter (fun t => pt_is t TFailed || pt_is t TMetricsUnavailable) (pj_trials p))) in
+        if pe_is e ESucceeded then
+          match get_cond (pe_conds e) ESucceeded with
+          | Some c =>
+              if Nat.eqb (creason c) RGoalReached then
+                match c_goal cf with
+                | Some g => existsb (fun t => match pt_obs t with Some (Some v) => meets cf g v | _ => false end) (pj_trials p)
+                | None => false end
+              else if Nat.eqb (creason c) RMaxTrialsReached then
+                match pe_max e with Some m => m <=? done | None => false end
+              else false
+          | None => false
+          end
+        else
+          match c_maxfailed cf with Some f => (1 <=? bad) && (f <=? bad) | None => false end
+          || match pj_sug p with Some s => ps_is s SFailed | None => false end
+    | None => true end
+  else true.
+
 Definition verdict_step (cf : cfg) (prev : proj) (a : action) (p : proj) : bool :=
   (* exclusive *)
   (match pj_exp p with
@@ -97,28 +123,7 @@ Definition verdict_step (cf : cfg) (prev : proj) (a : action) (p : proj) : bool 
   && (if exp_completed prev && negb (restart_enabled cf prev) && is_some (pj_exp p)
       then list_eqb (option_eqb cond_eqb) (verdict_conds prev) (verdict_conds p) && negb (pj_ctchange p)
       else true)
-  (* justified: a verdict that appears is backed by the trials in the store *)
-  && (if negb (exp_completed prev) && exp_completed p then
-        match pj_exp p with
-        | Some e =>
-            let done := Z.of_nat (length (filter pt_completed (pj_trials p))) in
-            let bad := Z.of_nat (length (filter (fun t => pt_is t TFailed || pt_is t TMetricsUnavailable) (pj_trials p))) in
-            match get_cond (pe_conds e) ESucceeded, get_cond (pe_conds e) EFailed with
-            | Some c, _ =>
-                if Nat.eqb (creason c) RGoalReached then
-                  match c_goal cf with
-                  | Some g => existsb (fun t => match pt_obs t with Some (Some v) => meets cf g v | _ => false end) (pj_trials p)
-                  | None => false end
-                else if Nat.eqb (creason c) RMaxTrialsReached then
-                  match pe_max e with Some m => m <=? done | None => false end
-                else false
-            | None, Some _ =>
-                match c_maxfailed cf with Some f => (1 <=? bad) && (f <=? bad) | None => false end
-                || match pj_sug p with Some s => ps_is s SFailed | None => false end
-            | None, None => false
-            end
-        | None => true end
-      else true).
+  && justified_step cf prev p.
 
 Definition verdict_ok (c : case) : bool := all_steps (verdict_step (k_cfg c)) (initial c) (k_steps c).
 
